@@ -230,6 +230,33 @@ def rel1(ctx, c):
             else:
                 c.ok(site + ":width", "width derived from the statement size equals the field width for every branch row", w)
             continue
+        call_ = node.value if isinstance(node, ast.Assign) else None
+        if hint is None and isinstance(call_, ast.Call) and len(call_.args) == 1 and all(k.arg and k.arg != "size_hint" for k in call_.keywords):
+            # no width is asked for: the value picks its own from its magnitude; decided by folding the constructor and hex_len for distances the arm can see
+            try:
+                from .wid import fold_constructor as _fc, fold_method as _fm
+                from ..consteval import fold as _fold1
+                kws_ = {k.arg: _fold1(k.value, dict(ctx.env)) for k in call_.keywords}
+                bad_w = None
+                for is_s in ([bool(short)] if short is not None else [True, False]):
+                    for dist in ((0, 5, 127) if is_s else (0, 5, 127, 255, 256, 4000)):
+                        dv = dist if direction != "backward" else (0x100 if is_s else 0x10000) - max(dist, 1)
+                        e_ = _fc(ctx, "NumericValue", dict(kws_, value=dv))
+                        hl = _fm(ctx, "NumericValue", "hex_len", {k_: x_ for k_, x_ in e_.items() if k_.startswith("self.")})
+                        if hl != (2 if is_s else 4) and bad_w is None:
+                            bad_w = (is_s, dist, hl)
+                if bad_w:
+                    c.finding(site + ":width", "no width given: a %s branch over %d bytes is rendered with %s hex digits" % ("short" if bad_w[0] else "long", bad_w[1], bad_w[2]),
+                              "fix_addresses builds the displacement as `%s`, without size_hint: NumericValue then takes its width from the magnitude, so a %s branch whose distance is %d "
+                              "is emitted with %s hex digits where the field has %d - the instruction is a byte short and everything behind it shifts"
+                              % (U(call_)[:60], "short" if bad_w[0] else "long", bad_w[1], bad_w[2], 2 if bad_w[0] else 4), w)
+                else:
+                    c.ok(site + ":width", "the value's own width equals the field width for every distance of this arm", w)
+                    c.undecided(site, "size-hint-not-constant", repr(hint), w)
+                continue
+            except Exception as e_:
+                c.undecided(site, "size-hint-not-constant", "no size_hint; constructor not foldable: %s" % str(e_)[:60], w)
+                continue
         if hint is None or hint.t:
             c.undecided(site, "size-hint-not-constant", repr(hint), w)
             continue
@@ -312,7 +339,14 @@ def rel1(ctx, c):
             # find the Aff of the guarded variable by re-evaluating up to the guard
             ev2 = BranchEval(this_name, target_name)
             env2 = {this_name: Aff({"this": 1}), target_name: Aff({"target": 1})}
-            gval = _value_at(ev2, stm, env2, conds, g, lv)
+            gval = _value_at(ev2, stm, env2, conds, g, lv if isinstance(cp.left, ast.Name) else cp.left)
+            if gval is not None and set(gval.t) & SIZEVARS:
+                # the branch's own size enters the guard: every short branch row has the same size, read from the table
+                eff_rows_, _ = ctx.effective_rows()
+                szs = {r_.modes["rel"][1] for r_ in eff_rows_.values() if not r_.flags["is_pseudo"] and r_.modes["rel"][0] is not None and r_.flags["is_short_branch"]}
+                if len(szs) == 1:
+                    sz_ = szs.pop()
+                    gval = Aff({k_: v_ for k_, v_ in gval.t.items() if k_ not in SIZEVARS}, gval.c + sum(v_ * sz_ for k_, v_ in gval.t.items() if k_ in SIZEVARS))
             if gval is None or not isinstance(k, int) or op not in ("Gt", "GtE"):
                 c.undecided(site + ":range", "guard-not-evaluable", U(g.test), repo.loc(fn, g))
                 continue
@@ -357,7 +391,13 @@ def _value_at(ev, stmts, env, conds, guard, var):
     def run(stmts, env):
         for k, s in enumerate(stmts):
             if s is guard:
-                result[0] = env.get(var)
+                if isinstance(var, ast.AST):
+                    try:
+                        result[0] = idx(var, env)
+                    except NotAffine:
+                        result[0] = None
+                else:
+                    result[0] = env.get(var)
                 return True
             if isinstance(s, ast.Assign) and len(s.targets) == 1:
                 t = U(s.targets[0])
